@@ -15,6 +15,14 @@ for p in props:
     pid = p["id"]
     if pid in CHECKS and os.path.exists(os.path.join(HERE, "pdpmc", "props", pid.lower() + ".py")):
         cat, tech, text, note, ref = CHECKS[pid]
+        # the property module's own RULE and bounds are the current statement of what is explored (the table's text is the
+        # summary it was first written with and may lag behind by a family or a count)
+        sys.path.insert(0, HERE)
+        import importlib
+        mod = importlib.import_module("pdpmc.props." + pid.lower())
+        text = "%s Bound, quick tier: %s. Bound, thorough tier: %s." % (mod.RULE, mod.bound("quick"), mod.bound("thorough"))
+        if getattr(mod, "ASSUMPTIONS", None):
+            note = note + " Assumptions of the check: " + "; ".join(mod.ASSUMPTIONS) + "."
         checks.append({
             "property_id": pid,
             "quick_cmd": "%s %s --tier quick" % (PY, pid),
